@@ -244,6 +244,7 @@ func VPH_C21_attrcache_step() {
 		}
 	}
 	vpAssert(c.Size() <= c.MaxSize(), "size-within-capacity")
+	vpAttrCacheRI(c, "ri")
 
 	// expose the LRU order: a Put of a fresh key evicts the least recently used entry when full
 	if vpBool("then-put-fresh") {
@@ -263,6 +264,33 @@ func VPH_C21_attrcache_step() {
 			if a != nil && !mn {
 				vpAssert(vpAnd(a.Size == ms, a.Uid == mu), "probe-value-agrees")
 			}
+		}
+	}
+	vpAttrCacheRI(c, "ri-after-probes")
+}
+
+// representation invariants (what makes one step compose to histories): the LRU list and the map
+// are in bijection, every entry points at its own list element.
+func vpAttrCacheRI(c *AttrCache, tag string) {
+	vpAssert(c.accessList.Len() == len(c.cache), tag+"-list-and-map-same-size")
+	for e := c.accessList.Front(); e != nil; e = e.Next() {
+		k, _ := e.Value.(string)
+		ent, ok := c.cache[k]
+		vpAssert(ok, tag+"-list-element-has-entry")
+		if ok {
+			vpAssert(ent.listElement == e, tag+"-entry-points-at-its-element")
+		}
+	}
+}
+
+func vpDirCacheRI(c *DirCache, tag string) {
+	vpAssert(c.accessList.Len() == len(c.entries), tag+"-list-and-map-same-size")
+	for e := c.accessList.Front(); e != nil; e = e.Next() {
+		k, _ := e.Value.(string)
+		ent, ok := c.entries[k]
+		vpAssert(ok, tag+"-list-element-has-entry")
+		if ok {
+			vpAssert(ent.listElement == e, tag+"-entry-points-at-its-element")
 		}
 	}
 }
@@ -349,6 +377,7 @@ func VPH_C21_dircache_step() {
 		m.e = nil
 	}
 	vpAssert(c.Size() <= c.maxEntries, "size-within-capacity")
+	vpDirCacheRI(c, "ri")
 	if vpBool("then-put-fresh") {
 		vpReach("eviction-probe")
 		c.Put("/zz", mkList(5))
@@ -363,6 +392,7 @@ func VPH_C21_dircache_step() {
 			vpAssert(vpAnd(len(l) >= 1, l[0].Size() == ms), "probe-value-agrees")
 		}
 	}
+	vpDirCacheRI(c, "ri-after-probes")
 }
 
 // VPH_C21_ischildof: isChildOf(path, dir) <=> path is dir joined with one non-empty component.
